@@ -10,6 +10,7 @@ import Drivers.XmlD
 import Drivers.LogD
 import Drivers.SchedD
 import Drivers.SessHbD
+import Drivers.F8cD
 import Drivers.MpmcD
 
 def main (args : List String) : IO UInt32 := do
@@ -29,4 +30,5 @@ def main (args : List String) : IO UInt32 := do
   | ["sched"] => Drivers.loop stdin () (fun _ l => ((), Drivers.SchedD.step l)); return 0
   | ["mpmc"] => Drivers.loop stdin Drivers.MpmcD.St.none Drivers.MpmcD.step; return 0
   | ["sesshb"] => Drivers.loop stdin () (fun _ l => ((), Drivers.SessHbD.stepLine l)); return 0
+  | ["f8c"] => Drivers.loop stdin () (fun _ l => ((), Drivers.F8cD.step l)); return 0
   | _ => IO.eprintln "usage: driver <stream>"; return 2
